@@ -52,7 +52,7 @@ func TestDriver(t *testing.T) {
 func init() {
 	core.Register(&core.Prop{
 		ID: "C18",
-		Rule: "E4 quiescence exploration of the real flow.Controller in a synctest bubble: every DAG on <=4 tasks (thorough 5) given as an edge set on ordered pairs x 5 dependency styles (output-field reference, task-root reference, through an intermediate non-task field, $after list, interpolation) + mixed styles, dynamic tasks (created by a comprehension once an earlier task has filled a value), 2- and 3-cycles; every completion order; <=1 injected failure (error / ErrAbort) or context cancellation at every position. " +
+		Rule: "E4 quiescence exploration of the real flow.Controller in a synctest bubble: every DAG on <=5 tasks (thorough: also 6 tasks with >=9 edges) given as an edge set on ordered pairs x 5 dependency styles (output-field reference, task-root reference, through an intermediate non-task field, $after list, interpolation) + mixed styles, dynamic tasks (created by a comprehension once an earlier task has filled a value), 2- and 3-cycles; every completion order; <=1 injected failure (error / ErrAbort) or context cancellation at every position. " +
 			"Non-trivial = executions of workflows with >=1 edge and >=2 distinct completion orders.",
 		Assumptions: []string{"testing/synctest.Wait gives exact quiescence: the controller is blocked in its select and every dispatched runner on its private gate", "ground truth for dependencies = the generator's edge set (transitively closed)"},
 		Run:         run, Replay: replay,
@@ -555,7 +555,7 @@ func run(r *core.Run) {
 				sts = styles[:1]
 			}
 			if n == 5 && r.Quick() {
-				sts = []string{"field", "mixed"}
+				sts = []string{"field", "mixed", "after"}
 			}
 			for _, st := range sts {
 				if !do(kase{N: n, Edges: e, Style: st, FailAt: -1}) {
@@ -568,8 +568,28 @@ func run(r *core.Run) {
 			return true
 		})
 	}
-	r.Section("dynamic tasks")
-	for n := 1; n <= 3; n++ {
+	if r.Thorough() {
+		// 6 tasks: only DAGs with at least 9 of the 15 possible edges (few
+		// linear extensions, i.e. few completion orders each)
+		r.Section("DAGs on 6 tasks with >=9 edges, styles field and mixed, failure-free")
+		dags(6, func(e [][2]int) bool {
+			if len(e) < 9 {
+				return true
+			}
+			for _, st := range []string{"field", "mixed"} {
+				if !do(kase{N: 6, Edges: e, Style: st, FailAt: -1}) {
+					return false
+				}
+			}
+			return true
+		})
+	}
+	dynN := 3
+	if r.Thorough() {
+		dynN = 4
+	}
+	r.Section(fmt.Sprintf("dynamic tasks (DAGs on <=%d tasks)", dynN))
+	for n := 1; n <= dynN; n++ {
 		dags(n, func(e [][2]int) bool {
 			do(kase{N: n, Edges: e, Style: "field", Extra: "dynamic", FailAt: -1})
 			do(kase{N: n, Edges: e, Style: "field", Extra: "dynamic-list", FailAt: -1})
@@ -583,10 +603,7 @@ func run(r *core.Run) {
 			return true
 		})
 	}
-	fn := 3
-	if r.Thorough() {
-		fn = 4
-	}
+	fn := 4
 	r.Section(fmt.Sprintf("one injected failure / abort / cancel at every position, DAGs on <=%d tasks", fn))
 	for n := 1; n <= fn; n++ {
 		dags(n, func(e [][2]int) bool {
